@@ -463,12 +463,19 @@ def judge_gc(o):
     return None
 
 
+# evaluated once per worker thread before the baseline is taken: creates the thread-locals an
+# evaluation may create lazily (empty object, builtin signatures, std context)
+WARM = ("local o = {a: 1, b: self.a, c:: {}}; [o.b, std.length([1]), {} + {}, '%d' % 1, std.objectFields({}), "
+        "std.sort([2, 1]), std.toString(o), std.map(function(x) x, [1])]")
+
+
 def correspond_gc(run, binary, cases):
     failures = []
     reqs = []
     for name, req in cases:
         r = dict(req)
         r["runs"] = 3
+        r["warm"] = WARM
         reqs.append(r)
     outs = core.run_harness(binary, "gc", reqs, timeout=300)
     run.log(f"collector: {len(cases)} programs evaluated")
@@ -512,6 +519,11 @@ def check(run, terrs):
     failures += correspond_gc(run, binary, gc_cases(run))
     run.trusted = TRUSTED
     run.assumptions = ASSUMPTIONS
+    run.notes.append(
+        "outside the quantifier (hand-over only): interning between interop::exit_thread and reenter_thread on "
+        "one thread breaks canonicity - `jrharness intern` ops [[7],[0,97],[8],[0,97]] leaves two live IBytes "
+        "\"a\" that compare unequal, and [[0,98],[7],[0,97],[8],[0,97],[3,1],[3,2]] panics at lib.rs:181 "
+        "(the issue-113 assertion); reenter_thread's safety comment does not forbid it")
     return core.conclude(
         run, proofs_ok, detail, failures, model_diffs,
         search=(lambda: search(run, binary)) if run.tier == "quick" else None,
@@ -544,6 +556,7 @@ def replay(run, data):
     if f.get("kind") == "gc":
         r = dict(case["request"])
         r["runs"] = 3
+        r["warm"] = WARM
         out = core.run_harness(binary, "gc", [r])[0]
         print("program :", r["code"])
         print("expected:", f.get("expected"))
